@@ -158,6 +158,7 @@ def finish(rep, seed=0, floors=None):
         'notes': rep.notes,
         'exhaustive': bool(getattr(rep, 'exhaustive', False)),
     }
+    cov.update(getattr(rep, 'extra_cov', {}) or {})
     ev = {'property_id': rep.prop, 'tier': rep.tier, 'seed': seed,
           'level': rep.level, 'coverage': cov, 'assumptions': rep.assumptions,
           'wall_s': round(wall, 2), 'violations': len(new)}
